@@ -567,8 +567,7 @@ def rule_gfx(ctx, res, sizes):
                 n_.target.id == 'x_offset':
             target = n_
     if target is None:
-        res.undecided('R-C17-inverse', g.qual, 'get_sprite loop',
-                      'x_offset loop not found')
+        _get_sprite_evaluated(ctx, res, g, sizes, parity)
         return
     r2 = {'ty': (0, 15), 'tx': (0, 15), 'y_offset': (0, 7),
           'x_offset': (0, 7)}
@@ -606,6 +605,84 @@ def rule_gfx(ctx, res, sizes):
               'nibble, on both sides',
               'getter nibble map {} (index form ok: {}) vs setter {}'.format(
                   gpar, idx_ok, parity), g.loc)
+
+
+def _get_sprite_evaluated(ctx, res, g, sizes, setter_parity):
+    """the pixel loop of get_sprite is not in the recognised form: evaluate
+    the whole function (absint/cx.py) on symbolic sheet memory for every
+    sprite id and a set of tile sizes, and compare every returned pixel with
+    the reference placement (pixel (px, py) = nibble px%2 of byte py*64 +
+    px//2, 0 outside the sheet)"""
+    from ..absint import cx as CX
+    G = 'pico8.gfx.gfx:Gfx'
+    size = sizes.get('gfx', 8192)
+    mem = [BV.source(('mem', 'gfx', k), 8) for k in range(size)]
+    cxi = CX.Cx(ctx.model, ctx.consts)
+    cls = ctx.model.cls(G)
+    cases = [(i, 1, 1) for i in range(256)]
+    for i in (0, 15, 17, 100, 240, 255):
+        cases += [(i, 2, 2), (i, 3, 1), (i, 1, 3)]
+    bad = None
+    try:
+        for (sid, tw, th) in cases:
+            def go():
+                o = CX.Obj(cls)
+                o.attrs['_data'] = CX.Seq('bytearray', list(mem))
+                o.attrs['_version'] = 8
+                return cxi.call(cxi.getattr(o, 'get_sprite'), [sid, tw, th],
+                                {})
+            paths = cxi.explore(go)
+            if len(paths) != 1 or paths[0][0]:
+                raise CX.CxError('get_sprite branches on sheet contents')
+            kind, val = paths[0][1]
+            if kind == 'raise':
+                bad = 'get_sprite({}, {}, {}) raises {}'.format(
+                    sid, tw, th, val.tname)
+                break
+            rows = [cxi.items(r) for r in cxi.items(val)]
+            if len(rows) != 8 * th or any(len(r) != 8 * tw for r in rows):
+                bad = 'get_sprite({}, {}, {}) returns {} rows of {} ' \
+                      'pixels'.format(sid, tw, th, len(rows),
+                                      sorted({len(r) for r in rows}))
+                break
+            for y in range(8 * th):
+                for x in range(8 * tw):
+                    px, py = (sid % 16) * 8 + x, (sid // 16) * 8 + y
+                    got = rows[y][x]
+                    got = got if isinstance(got, BV) else BV.const(got, 4)
+                    if px > 127 or py > 127:
+                        want = BV.const(0, 4)
+                    else:
+                        b = mem[py * 64 + px // 2]
+                        want = BV([b.cell(k) for k in (
+                            range(4, 8) if px % 2 else range(0, 4))])
+                    if got != want:
+                        bad = 'get_sprite({}, {}, {}) pixel ({}, {}) is {} ' \
+                              'instead of the {} nibble of byte {}'.format(
+                                  sid, tw, th, x, y, got,
+                                  'high' if px % 2 else 'low',
+                                  py * 64 + px // 2)
+                        break
+                if bad:
+                    break
+            if bad:
+                break
+    except AnalysisError as e:
+        res.undecided('R-C17-inverse', g.qual, 'get_sprite loop',
+                      'pixel loop not recognised and whole-function '
+                      'evaluation could not follow it: ' + str(e)[:120])
+        return
+    res.check(bad is None and setter_parity == {True: 'low', False: 'high'},
+              'R-C17-inverse', g.qual,
+              'get_sprite/set_sprite agree on nibble and byte',
+              'evaluated on symbolic sheet memory for all 256 ids at 1x1 and '
+              '18 larger tile sizes ({} calls): every pixel is the nibble '
+              'set_sprite writes'.format(len(cases)),
+              bad or 'setter nibble map {}'.format(setter_parity), g.loc)
+    res.check(bad is None or 'raises' not in bad, 'R-C17-bounds', g.qual,
+              'get_sprite: every sheet access in bounds (evaluated)',
+              '{} calls evaluated, none raises'.format(len(cases)),
+              bad or '', g.loc)
 
 
 # ------------------------------------------------------------------- map ---
